@@ -4,6 +4,7 @@ mod inputs;
 mod refsem;
 mod vmrun;
 mod c01;
+mod c02;
 mod c03;
 mod c04;
 mod c05;
@@ -23,7 +24,7 @@ mod c18;
 use fw::*;
 
 fn defs() -> Vec<CheckDef> {
-    vec![c01::DEF, c03::DEF, c04::DEF, c05::DEF, c06::DEF, c07::DEF, c08::DEF, c09::DEF, c10::DEF, c11::DEF, c12::DEF, c13::DEF, c14::DEF, c15::DEF, c16::DEF, c18::DEF]
+    vec![c01::DEF, c02::DEF, c03::DEF, c04::DEF, c05::DEF, c06::DEF, c07::DEF, c08::DEF, c09::DEF, c10::DEF, c11::DEF, c12::DEF, c13::DEF, c14::DEF, c15::DEF, c16::DEF, c18::DEF]
 }
 
 fn arg_after(args: &[String], flag: &str) -> Option<String> {
